@@ -4,15 +4,18 @@ classify, shrink, write evidence, print VIOLATION / KNOWN-FINDING lines.
 
 Python 3 standard library only."""
 import fcntl
+import hashlib
 import json
 import os
 import random
 import re
 import select
+import shutil
 import subprocess
 import sys
 import threading
 import time
+import uuid
 from concurrent.futures import ThreadPoolExecutor
 
 VERIF = os.path.dirname(os.path.dirname(os.path.abspath(__file__)))
@@ -118,6 +121,31 @@ def regenerate():
     rc, out = run([ex, REPO, os.path.join(LEAN, "Gv/Gen")])
     if rc != 0:
         return False, "extractor failed on the working tree (source shape no longer understood):\n" + out, time.time() - t0
+    # type-checked determinism facts (tools/detscan, go/packages): ~10 s, so re-run only when the Go sources changed
+    h = hashlib.sha1()
+    for root, dirs, fs in os.walk(REPO):
+        dirs[:] = sorted(d for d in dirs if not d.startswith("."))
+        for f in sorted(fs):
+            if f.endswith(".go") or f in ("go.mod", "go.sum"):
+                with open(os.path.join(root, f), "rb") as fh:
+                    h.update(f.encode() + b"\0" + fh.read() + b"\0")
+    with open(os.path.join(VERIF, "tools/detscan/main.go"), "rb") as fh:
+        h.update(fh.read())
+    stamp = os.path.join(BUILD, "detscan.stamp")
+    target = os.path.join(LEAN, "Gv/Gen/DetFacts.lean")
+    old = open(stamp).read() if os.path.exists(stamp) else ""
+    if old != h.hexdigest() or not os.path.exists(target):
+        ds = os.path.join(BUILD, "detscan")
+        rc, out2 = run(["go", "build", "-o", ds, "."], cwd=os.path.join(VERIF, "tools/detscan"), env=goenv())
+        if rc != 0:
+            return False, "detscan build failed:\n" + out2, time.time() - t0
+        rc, out2 = run([ds, REPO, os.path.join(LEAN, "Gv/Gen")], env=goenv())
+        if rc != 0:
+            if os.path.exists(stamp):
+                os.remove(stamp)
+            return False, "detscan failed on the working tree (it no longer type-checks?):\n" + out2, time.time() - t0
+        with open(stamp, "w") as fh:
+            fh.write(h.hexdigest())
     return True, out, time.time() - t0
 
 
@@ -285,6 +313,131 @@ def run_cli_case(c, timeout_s=20.0):
         c.impl = "hang"
 
 
+_LOGSTAMP = re.compile(rb"(?m)^\d{4}/\d\d/\d\d \d\d:\d\d:\d\d ")
+
+
+def exec_goalign(argv, stdin, files, timeout_s=60.0, env=None):
+    """one execution of the freshly built binary in a private directory holding `files` (name -> bytes).
+    Returns (rc, stdout, stderr, {produced file -> bytes}); the time stamp that Go's standard logger puts in front
+    of warnings on stderr is removed (it is the wall clock, not output of the command)."""
+    binp = os.path.join(BUILD, "goalign")
+    wd = os.path.join(BUILD, "det-tmp", uuid.uuid4().hex)
+    os.makedirs(wd)
+    try:
+        for k, v in files.items():
+            with open(os.path.join(wd, k), "wb") as f:
+                f.write(v)
+        try:
+            p = subprocess.run([binp] + argv, input=stdin, cwd=wd, stdout=subprocess.PIPE, stderr=subprocess.PIPE,
+                               timeout=timeout_s, env=env)
+        except subprocess.TimeoutExpired:
+            return "hang", b"", b"", {}
+        produced = {}
+        for root, _, fs in os.walk(wd):
+            for f in fs:
+                rel = os.path.relpath(os.path.join(root, f), wd)
+                if rel not in files:
+                    with open(os.path.join(root, f), "rb") as fh:
+                        produced[rel] = fh.read()
+        return p.returncode, p.stdout, _LOGSTAMP.sub(b"", p.stderr), produced
+    finally:
+        shutil.rmtree(wd, ignore_errors=True)
+
+
+def _unesc(s):
+    return s.replace("|", "\n").replace("~", "\t").encode()
+
+
+def _files(spec):
+    if spec == "_":
+        return {}
+    out = {}
+    for part in spec.split(";;"):
+        k, v = part.split("=", 1)
+        out[k] = _unesc(v)
+    return out
+
+
+def _digest(r):
+    h = hashlib.sha1()
+    h.update(repr(r[0]).encode() + b"\0" + r[1] + b"\0" + r[2])
+    for k in sorted(r[3]):
+        h.update(b"\0" + k.encode() + b"\0" + r[3][k])
+    return h.hexdigest()[:12]
+
+
+def _where(a, b):
+    if a[0] != b[0]:
+        return "exit-status:%s/%s" % (a[0], b[0])
+    if a[1] != b[1]:
+        return "stdout"
+    if a[2] != b[2]:
+        return "stderr"
+    for k in sorted(set(a[3]) | set(b[3])):
+        if a[3].get(k) != b[3].get(k):
+            return "file:" + k
+    return "?"
+
+
+FMT_IN = {"fasta": [], "phylip": ["-p"], "nexus": ["-x"], "clustal": ["-u"]}
+
+
+def run_det_case(c, timeout_s=120.0):
+    """ops `det*` (property C11), run on the goalign binary built from the working tree.
+      det      <stdin> <threads,threads,...> <files> <argv...>   every run (`-t n` appended) gives the same bytes
+      detchain <stdin> <fmt,fmt,...,fmt>                          reformat chain back to the first format
+      detboot  <stdin> <model> <n> <frac num/den> <seed> <threads> seqboot + compute distance = distboot
+    Result: `same rc=<rc> out=<bytes> files=<k>` or `differ <where> ...`."""
+    try:
+        stdin = b"" if c.args[0] == "_" else _unesc(c.args[0])
+        if c.op == "det":
+            threads = [int(x) for x in str(c.args[1]).split(",")]
+            files = _files(c.args[2])
+            runs = [exec_goalign([str(a) for a in c.args[3:]] + ["-t", str(t)], stdin, files, timeout_s) for t in threads]
+            for t, r in zip(threads[1:], runs[1:]):
+                if r != runs[0]:
+                    c.impl = "differ %s threads=%d:%s threads=%d:%s" % (_where(runs[0], r), threads[0], _digest(runs[0]), t, _digest(r))
+                    return
+            r = runs[0]
+            c.impl = "same rc=%s out=%d files=%d" % (r[0], len(r[1]), len(r[3]))
+        elif c.op == "detchain":
+            chain = c.args[1].split(",")
+            r0 = exec_goalign(["reformat", chain[0]], stdin, {}, timeout_s)
+            if r0[0] != 0:
+                c.impl = "same rc=%s out=0 files=0" % r0[0]      # not an alignment goalign writes: nothing to chain
+                return
+            cur = r0[1]
+            for prev, nxt in zip(chain, chain[1:] + [chain[0]]):
+                r = exec_goalign(["reformat", nxt] + FMT_IN[prev], cur, {}, timeout_s)
+                if r[0] != 0:
+                    c.impl = "differ exit-status:%s at %s->%s" % (r[0], prev, nxt)
+                    return
+                cur = r[1]
+            c.impl = ("same rc=0 out=%d files=0" % len(cur)) if cur == r0[1] else "differ stdout after %s" % ">".join(chain + [chain[0]])
+        elif c.op == "detboot":
+            model, n, frac, seed, t = c.args[1], int(c.args[2]), c.args[3], str(c.args[4]), str(c.args[5])
+            num, den = frac.split("/")
+            f = repr(float(num) / float(den))
+            a = exec_goalign(["build", "seqboot", "-n", str(n), "-f", f, "--seed", seed, "-o", "boot", "-t", t], stdin, {}, timeout_s)
+            if a[0] != 0:
+                c.impl = "same rc=%s out=0 files=0" % a[0]
+                return
+            mats = b""
+            for i in range(n):
+                d = exec_goalign(["compute", "distance", "-m", model, "-t", t], a[3].get("boot%d.fa" % i, b""), {}, timeout_s)
+                if d[0] != 0:
+                    c.impl = "differ exit-status:%s in compute distance on replicate %d" % (d[0], i)
+                    return
+                mats += d[1]
+            b = exec_goalign(["build", "distboot", "-n", str(n), "-f", f, "--seed", seed, "-m", model, "-t", t], stdin, {}, timeout_s)
+            c.impl = ("same rc=0 out=%d files=%d" % (len(mats), n)) if (b[0] == 0 and b[1] == mats) else \
+                "differ stdout seqboot+distance=%s distboot=%s(rc=%s)" % (hashlib.sha1(mats).hexdigest()[:12], hashlib.sha1(b[1]).hexdigest()[:12], b[0])
+        else:
+            c.impl = "bad-op"
+    except Exception as e:       # noqa
+        c.impl = "harness-error %r" % (e,)
+
+
 def run_impl(binpath, cases, timeout_s=5.0, nproc=None, env=None):
     for i, c in enumerate(cases):
         c.id = i
@@ -292,8 +445,12 @@ def run_impl(binpath, cases, timeout_s=5.0, nproc=None, env=None):
     if cli:
         with ThreadPoolExecutor(min(NCPU, len(cli))) as ex:
             list(ex.map(run_cli_case, cli))
+    det = [c for c in cases if c.op.startswith("det")]
+    if det:
+        with ThreadPoolExecutor(min(NCPU, len(det))) as ex:
+            list(ex.map(run_det_case, det))
     allcases = cases
-    cases = [c for c in cases if not c.op.startswith("cli")]
+    cases = [c for c in cases if not c.op.startswith(("cli", "det"))]
     if not cases:
         return
     nproc = nproc or min(NCPU, max(1, len(cases) // 50))
